@@ -135,16 +135,9 @@ func UpdatePathAttrs4ByteAs(logger *slog.Logger, msg *bgp.BGPUpdate) {
 	}
 
 	asLen := 0
-	asConfedLen := 0
 	asParams := make([]bgp.AsPathParamInterface, 0, len(asAttr.Value))
 	for _, param := range asAttr.Value {
 		asLen += param.ASLen()
-		switch param.GetType() {
-		case bgp.BGP_ASPATH_ATTR_TYPE_CONFED_SET:
-			asConfedLen++
-		case bgp.BGP_ASPATH_ATTR_TYPE_CONFED_SEQ:
-			asConfedLen += len(param.GetAS())
-		}
 		asParams = append(asParams, param)
 	}
 
@@ -177,16 +170,29 @@ func UpdatePathAttrs4ByteAs(logger *slog.Logger, msg *bgp.BGPUpdate) {
 		}
 	}
 
-	if asLen+asConfedLen < as4Len {
+	// RFC 6793 4.2.3: the number of AS numbers is calculated as for route
+	// selection (RFC 4271 9.1.2.2, RFC 5065), so confederation segments count
+	// as zero on both sides.
+	if asLen < as4Len {
 		logger.Warn("AS4_PATH is longer than AS_PATH. ignore AS4_PATH",
 			slog.String("Topic", "Table"))
 		return
 	}
 
-	keepNum := asLen + asConfedLen - as4Len
+	keepNum := asLen - as4Len
 
 	newParams := make([]bgp.AsPathParamInterface, 0, len(asAttr.Value))
 	for _, param := range asParams {
+		switch param.GetType() {
+		case bgp.BGP_ASPATH_ATTR_TYPE_CONFED_SEQ, bgp.BGP_ASPATH_ATTR_TYPE_CONFED_SET:
+			// a confederation segment is prepended if it is the leading
+			// segment or adjacent to a prepended one
+			newParams = append(newParams, param)
+			continue
+		}
+		if keepNum <= 0 {
+			break
+		}
 		if keepNum-param.ASLen() >= 0 {
 			newParams = append(newParams, param)
 			keepNum -= param.ASLen()
@@ -195,13 +201,13 @@ func UpdatePathAttrs4ByteAs(logger *slog.Logger, msg *bgp.BGPUpdate) {
 			newParams = append(newParams, bgp.NewAs4PathParam(param.GetType(), param.GetAS()[:keepNum]))
 			keepNum = 0
 		}
-
-		if keepNum <= 0 {
-			break
-		}
 	}
 
 	for _, param := range as4Params {
+		if len(newParams) == 0 {
+			newParams = append(newParams, param)
+			continue
+		}
 		lastParam := newParams[len(newParams)-1]
 		lastParamAS := lastParam.GetAS()
 		paramType := param.GetType()
